@@ -263,7 +263,12 @@ def _first_arg(cx, f, name, op, d, mk, g):
     if f is torch.isclose:
         near = d + 1e-7 * zoo.rn(g, *d.shape, dtype=dt)
         near[..., 0, 0] = d[..., 0, 0] + 1.0
-        for tk, X, kw in (("T", T, {}), ("T_near", near, {}), ("T_near,rtol", near, {"rtol": 1e-3, "atol": 0.0}), ("T_bcast", Tb, {"equal_nan": True})):
+        rel = d * 1.005  # separates rtol from atol: close everywhere under (rtol=1e-2, atol=0); under (rtol=0, atol=1e-2) only where |d| <= 2
+        for tk, X, kw in (("T", T, {}), ("T_near", near, {}), ("T_near,rtol", near, {"rtol": 1e-3, "atol": 0.0}), ("T_bcast", Tb, {"equal_nan": True}),
+                          ("T_rel,rtol", rel, {"rtol": 1e-2, "atol": 0.0}), ("T_rel,atol", rel, {"rtol": 0.0, "atol": 1e-2}), ("T_rel,positional", rel, None)):
+            if kw is None:
+                cx.call(e, tk, lambda: f(op, X, 1e-2, 1e-3), lambda: meth(X, 1e-2, 1e-3), lambda: f(d, X, 1e-2, 1e-3))
+                continue
             cx.call(e, tk, lambda: f(op, X, **kw), lambda: meth(X, **kw), lambda: f(d, X, **kw))
         for nm, c2, o2, od2 in _others(case, d, dt, cx.label)[:2]:
             cx.call(e, f"op:{nm}", lambda: f(op, o2), lambda: meth(o2), lambda: f(d, od2))
@@ -417,8 +422,15 @@ def _second_arg(cx, f, name, op, d, g):
     if f is torch.isclose:
         near = d + 1e-7 * zoo.rn(g, *d.shape, dtype=dt)
         near[..., 0, 0] = d[..., 0, 0] + 1.0
-        for tk, X, kw in (("T", T, {}), ("T_near", near, {}), ("T_near,rtol", near, {"rtol": 1e-3, "atol": 0.0}), ("T_bcast", Tb, {})):
+        rel = d * 1.005
+        for tk, X, kw in (("T", T, {}), ("T_near", near, {}), ("T_near,rtol", near, {"rtol": 1e-3, "atol": 0.0}), ("T_bcast", Tb, {}),
+                          ("T_rel,rtol", rel, {"rtol": 1e-2, "atol": 0.0}), ("T_rel,atol", rel, {"rtol": 0.0, "atol": 1e-2})):
             cx.call(e, tk, lambda: f(X, op, **kw), None, lambda: f(X, d, **kw))
+        if dt == torch.float64:
+            # torch.isclose(input, other) is NOT symmetric: |input - other| <= atol + rtol * |other|.  X = d * 1.01005 is outside
+            # rtol = 0.01 relative to |d| (the operator is `other`) but inside relative to |X| (what a swapped call tests)
+            X = d * 1.01005
+            cx.call(e, "T_asym,rtol", lambda: f(X, op, rtol=0.01, atol=0.0), None, lambda: f(X, d, rtol=0.01, atol=0.0))
         return True
     return False
 
